@@ -116,8 +116,9 @@ func Round(x float64, prec int) float64 {
 		// without the negative bit set.
 		return 0
 	}
-	// Fast path for positive precision on integers.
-	if prec >= 0 && x == math.Trunc(x) {
+	// Fast path for positive precision on integers
+	// and for infinities at any precision.
+	if (prec >= 0 && x == math.Trunc(x)) || math.IsInf(x, 0) {
 		return x
 	}
 	pow := math.Pow10(prec)
@@ -147,8 +148,9 @@ func RoundEven(x float64, prec int) float64 {
 		// without the negative bit set.
 		return 0
 	}
-	// Fast path for positive precision on integers.
-	if prec >= 0 && x == math.Trunc(x) {
+	// Fast path for positive precision on integers
+	// and for infinities at any precision.
+	if (prec >= 0 && x == math.Trunc(x)) || math.IsInf(x, 0) {
 		return x
 	}
 	pow := math.Pow10(prec)
